@@ -85,7 +85,7 @@ func genRec(t *rapid.T) rec {
 }
 
 func TestTreeHistories(t *testing.T) {
-	rt.Check(t, 2500, 150000, func(t *rapid.T) {
+	rt.Check(t, 2500, 600000, func(t *rapid.T) {
 		st := setup{kind: rapid.IntRange(0, 2).Draw(t, "handler"), colorful: rapid.IntRange(0, 3).Draw(t, "colorful") == 0, addSource: rapid.IntRange(0, 3).Draw(t, "addSource") == 0}
 		sink := &lm.Sink{}
 		nodes := []*tnode{{l: st.fresh(sink), parent: -1}}
@@ -248,7 +248,7 @@ func TestWithEqualsCallSite(t *testing.T) {
 // ---- concurrent derivation from a shared parent (run under -race) ----
 
 func TestConcurrentDerive(t *testing.T) {
-	rt.Check(t, 150, 10000, func(t *rapid.T) {
+	rt.Check(t, 150, 30000, func(t *rapid.T) {
 		st := setup{kind: rapid.IntRange(0, 2).Draw(t, "handler")}
 		sink := &lm.Sink{}
 		parentChain := []lm.Step{{With: []lm.Node{lm.GenNode(genOpts, 1).Draw(t, "p0")}}}
